@@ -210,7 +210,13 @@ def some_params(cp=None):
               hashing_algorithm=e(enums.HashingAlgorithm, "hash"),
               cryptographic_algorithm=e(enums.CryptographicAlgorithm, "alg"),
               digital_signature_algorithm=e(enums.DigitalSignatureAlgorithm, "dsa"),
-              tag_length=cp.get("taglen"), random_iv=cp.get("random_iv"))
+              tag_length=cp.get("taglen"), random_iv=cp.get("random_iv"),
+              # the remaining optional fields of the structure (a request may carry them; the server has to treat a
+              # pair Encrypt / Decrypt that states the same parameters as inverse operations whatever they are)
+              iv_length=cp.get("iv_length"), fixed_field_length=cp.get("fixed_field_length"),
+              invocation_field_length=cp.get("invocation_field_length"), counter_length=cp.get("counter_length"),
+              initial_counter_value=cp.get("initial_counter_value"),
+              key_role_type=None if cp.get("key_role") is None else enums.KeyRoleType(cp["key_role"]))
 
 
 def hexb(it, key, default):
